@@ -485,4 +485,11 @@ def run(ctx):
     ctx.borrow("c05", "C05-R2", "C09-R13", "the switches act the same on every run of the same argv list: wrapping an argv list does not pop the program name off the caller's own list "
                "(the second run would lose its command name and ignore where the switches stand)")
     ctx.borrow("c10", "C10-R2", "C09-R14", "the verbosity switches govern every writing method of the I/O facade: each forwards the caller's flags to the output it delegates to")
+    from .c11 import formatter_style_set_rule
+
+    r = ctx.rule("C09-R15", "SIBLING", "--ansi / --no-ansi change the decoration and nothing else: on every arm of the I/O factory the formatter gets the application's "
+                 "style set, so an application-defined style tag is interpreted the same way whichever switch is given (same rule as C11-R9)", reference=6)
+    formatter_style_set_rule(ctx, r)
+    ctx.borrow("c04", "C04-R15", "C09-R16", "the version switch acts 'without invoking the command's handler' - and without building it: the configured handler (possibly a factory) is "
+               "looked up only after the pre-handle listeners had their say")
     return ctx.results
